@@ -33,8 +33,10 @@
      QuoteMultiLine    quote(..) values print in the non-compact, multi-line layout
      ScannerLimit      AutoLoad stops silently at the first line of MaxLine bytes or more
      NamedFuncNoLimit  the length limit is not applied to named functions
-   and three that the code does not have (they make the remaining invariants non-vacuous and are
-   the shape of the mutations tried on the real code): Unsorted, Truncate, RawStrings.          *)
+   and four that the code does not have (they make the remaining invariants non-vacuous and are
+   the shape of the mutations tried on the real code): Unsorted, Truncate, RawStrings, and
+     ScannerByLimit    AutoLoad makes room for the longest admitted value (limit + 1 bytes) instead of the
+                       longest admitted line (name "=" value): see LineRoom and BoundaryCases.   *)
 EXTENDS Integers, Sequences, FiniteSets, TLC, Json, GrolValues
 
 CONSTANTS Dev,        \* subset of DevNames
@@ -46,8 +48,8 @@ CONSTANTS Dev,        \* subset of DevNames
 
 DevNames == {"FloatNoPoint", "MinIntLiteral", "NameForms", "QuoteEscapes", "ClosureNoEnv", "FuncOwnName",
              "LossyFuncPrint", "ExtUsage", "QuoteMultiLine", "ScannerLimit", "NamedFuncNoLimit",
-             "Unsorted", "Truncate", "RawStrings"}
-CodeDev  == DevNames \ {"Unsorted", "Truncate", "RawStrings"}
+             "Unsorted", "Truncate", "RawStrings", "ScannerByLimit"}
+CodeDev  == DevNames \ {"Unsorted", "Truncate", "RawStrings", "ScannerByLimit"}
 ASSUME Dev \subseteq DevNames
 HasDev(d) == d \in Dev
 
@@ -370,13 +372,18 @@ ParseLine(line, env) ==
             ELSE [st |-> r.st, name |-> Sub(line, 1, k - 1), v |-> r.v]
 
 \* repl.AutoLoad: a fresh session, each line its own input, failing lines skipped
-RECURSIVE AutoLoadFrom(_, _, _)
-AutoLoadFrom(f, i, env) ==
+(* the line reader gives up (silently: that line and the rest are not loaded) at a line it has no room for:
+   ScannerLimit    the default buffer, MaxLine bytes, whatever the file holds;
+   ScannerByLimit  room for the longest *value* the configured limit admits (lim + 1 bytes when lim >= MaxLine,
+                   else the default) - but a line is name "=" value, up to StrLen(name) + 1 bytes longer.       *)
+LineRoom(lim) == IF HasDev("ScannerByLimit") /\ lim >= MaxLine THEN lim + 1 ELSE MaxLine
+RECURSIVE AutoLoadFrom(_, _, _, _)
+AutoLoadFrom(f, i, env, lim) ==
   IF i > Len(f) THEN env
-  ELSE IF HasDev("ScannerLimit") /\ StrLen(f[i]) >= MaxLine THEN env      \* bufio.Scanner: token too long, silently the end
+  ELSE IF (HasDev("ScannerLimit") \/ (HasDev("ScannerByLimit") /\ lim > 0)) /\ StrLen(f[i]) >= LineRoom(lim) THEN env
   ELSE LET r == ParseLine(f[i], env) IN
-       AutoLoadFrom(f, i + 1, IF r.st = "ok" THEN Bind(env, r.name, r.v, 1) ELSE env)
-AutoLoadOf(f) == AutoLoadFrom(f, 1, <<>>)
+       AutoLoadFrom(f, i + 1, IF r.st = "ok" THEN Bind(env, r.name, r.v, 1) ELSE env, lim)
+AutoLoadOf(f, lim) == AutoLoadFrom(f, 1, <<>>, lim)    \* the loading session is configured with the same limit
 
 \* load(): the whole file is one program: any parse error and nothing is evaluated; the first
 \* evaluation error ends the evaluation
@@ -545,6 +552,25 @@ LimitCases == <<
      << <<"f", Fn("f", "func (a,b){a+b+a+b+a+b}", "func (a,b){a+b+a+b+a+b}", <<>>)>>,
         <<"g", Fn("", "x=>x+1+1+1+1+1+1", "x=>x+1+1+1+1+1+1", <<>>)>>, <<"s", Str("0123456789")>>, <<"t", Str("xy")>> >>) >>
 
+(* Boundary family of the length limit, derived from the save format: a line is name "=" value and a value is
+   admitted iff StrLen(Printed(v)) <= lim, so the longest admitted line has StrLen(name) + 1 + lim bytes.  For
+   each limit and three name lengths k the value (a string whose printed form has exactly that many bytes) sits
+   at lim (the longest admitted value), lim - 1, lim - k (the line is lim + 1 bytes), lim - k - 1 (the line is
+   exactly lim bytes) and lim + 1 (skipped by design).  Bindings that sort after it must survive every loader. *)
+BoundaryNames == <<"b", "bound", "boundary_name_len_20">>
+StrOfPrintedLen(n) == Str(StrRepeat("x", n - 2))
+BoundaryCase(lim, ki, oi) ==
+  LET name == BoundaryNames[ki]
+      k    == StrLen(name)
+      off  == <<0, -1, 0 - k, 0 - k - 1, 1>>[oi]
+  IN DC(Cat3(NumId("bnd:k", k), ":", <<"lim", "lim-1", "lim-k", "lim-k-1", "lim+1">>[oi]),
+        << <<"a", IntN(1)>>, <<name, StrOfPrintedLen(lim + off)>>, <<"y", Arr(<<IntN(1), Str("two")>>)>>, <<"zlast", Str("z")>> >>)
+BoundaryFits(lim, ki, oi) == lim - StrLen(BoundaryNames[ki]) - 1 >= 2
+BoundaryCases(lim) ==
+  LET all == [n \in 1..15 |-> <<((n - 1) \div 5) + 1, ((n - 1) % 5) + 1>>]
+      ok  == SelectSeq(all, LAMBDA p : lim > 0 /\ BoundaryFits(lim, p[1], p[2]))
+  IN [n \in 1..Len(ok) |-> BoundaryCase(lim, ok[n][1], ok[n][2])]
+
 FuncCases == <<
   SC("fn:named-add", "func f(a,b){a+b}",
      << <<"f", Fn("f", "func (a,b){a+b}", "func (a,b){a+b}", <<>>)>> >>),
@@ -683,7 +709,7 @@ FuncCases == <<
   SC("fn:ext-in-array", "a=1; q=[pow]; z=5",
      << <<"a", IntN(1)>>, <<"q", Arr(<<Ext("pow", "pow(float, float)")>>)>>, <<"z", IntN(5)>> >>),
   SC("fn:quote-simple", "x=quote(1+2); z=5",
-     << <<"x", Quo("quote(1 + 2)", "quote(1 + 2)")>>, <<"z", IntN(5)>> >>),
+     << <<"x", Quo("quote(1+2)", "quote(1 + 2)")>>, <<"z", IntN(5)>> >>),
   SC("fn:quote-multiline", "x=quote(if a {b} else {c}); z=1",
      << <<"x", Quo("quote(if a{b}else{c})", "quote(if a b\n else c\n)")>>, <<"z", IntN(1)>> >>)
 >>
@@ -728,14 +754,14 @@ Cases == ConcatScopes(1)                 \* Scope is a set of scope names
 \* ------------------------------------------------------------------------------ JSON forms for GEN
 RECURSIVE VJ(_)
 VJ(v) ==
-  CASE v.t = "str"  -> [t |-> "str", b |-> StrBytes(v.v)]
+  CASE v.t = "str"  -> IF StrLen(v.v) > 512 THEN [t |-> "str", r |-> StrRLE(v.v)] ELSE [t |-> "str", b |-> StrBytes(v.v)]
     [] v.t = "arr"  -> [t |-> "arr", e |-> [i \in 1..Len(v.e) |-> VJ(v.e[i])]]
     [] v.t = "map"  -> [t |-> "map", p |-> [i \in 1..Len(v.p) |-> <<VJ(v.p[i][1]), VJ(v.p[i][2])>>]]
     [] v.t = "func" -> [t |-> "func", name |-> v.name, code |-> v.code, ck |-> v.ck,
                         cap |-> [i \in 1..Len(v.cap) |-> <<v.cap[i][1], VJ(v.cap[i][2])>>]]
     [] OTHER        -> v
 EnvJ(env) == [i \in 1..Len(env) |-> <<env[i][1], VJ(env[i][2])>>]
-LinesJ(f) == [i \in 1..Len(f) |-> StrBytes(f[i])]
+LinesJ(f) == [i \in 1..Len(f) |-> IF StrLen(f[i]) > 512 THEN [r |-> StrRLE(f[i])] ELSE StrBytes(f[i])]   \* long lines run-length coded
 
 \* ------------------------------------------------------------------------------ properties (operators and invariants)
 Loaded == phase \in {"loadedW", "loadedA"}
@@ -788,17 +814,20 @@ SkippedNotTruncated == HasFile => SkippedOf(saved, limit, file)
 PrintOK == \A i \in 1..Len(globals) : PrintIsInspect(globals[i][2])
 
 \* ------------------------------------------------------------------------------ the machine
+\* the cases explored with limit lim: the universe, plus (scope "boundary") the boundary family of that limit
+CasesAt(lim) == Cases \o (IF "boundary" \in Scope THEN BoundaryCases(lim) ELSE <<>>)
 Init ==
-  \E i \in 1..Len(Cases) :
-    /\ meta = [id |-> Cases[i].id, src |-> Cases[i].src, api |-> Cases[i].api]
-    /\ globals = Cases[i].env
-    /\ limit \in Limits
+  \E lim \in Limits : \E i \in 1..Len(CasesAt(lim)) :
+    LET c == CasesAt(lim)[i] IN
+    /\ meta = [id |-> c.id, src |-> c.src, api |-> c.api]
+    /\ globals = c.env
+    /\ limit = lim
     /\ file = <<>> /\ saved = <<>> /\ phase = "fresh"
 
 EmitCase ==
   (EmitOn /\ phase = "fresh") =>
     LET f  == SaveFile(globals, limit)
-        la == AutoLoadOf(f)
+        la == AutoLoadOf(f, limit)
         lw == LoadWholeOf(f)
         ra == SaveFile(la, limit)
         rw == SaveFile(lw, limit)
@@ -826,7 +855,7 @@ LoadWhole ==              \* a fresh session runs load()
 
 AutoLoadLineByLine ==     \* a fresh session auto-loads the file
   /\ phase = "saved"
-  /\ globals' = AutoLoadOf(file)
+  /\ globals' = AutoLoadOf(file, limit)
   /\ phase' = "loadedA"
   /\ UNCHANGED <<file, saved, meta, limit>>
 
@@ -835,7 +864,7 @@ Cycle ==                  \* save, then load in a fresh session (either way), as
   /\ LET f == SaveFile(globals, limit) IN
      /\ file' = f
      /\ saved' = globals
-     /\ \E w \in BOOLEAN : /\ globals' = (IF w THEN LoadWholeOf(f) ELSE AutoLoadOf(f))
+     /\ \E w \in BOOLEAN : /\ globals' = (IF w THEN LoadWholeOf(f) ELSE AutoLoadOf(f, limit))
                            /\ phase' = (IF w THEN "loadedW" ELSE "loadedA")
   /\ UNCHANGED <<meta, limit>>
 
